@@ -100,6 +100,9 @@ class Factory(object):
 
 NAMES = {
     'abs': ('/w/out/a.min.js', '/w/out/a.min.js.map', ['/w/src/x.js', '/w/src/sub/y.js', '/w/z.js']),
+    # sibling directories whose names are prefixes of one another, map away from the output
+    'abs_siblings': ('/w/dist/a.min.js', '/w/dist.maps/a.min.js.map', ['/w/dist-src/x.js', '/w/dist/x.js', '/w/di/z.js']),
+    'abs_nested': ('/w/a/b/c/a.min.js', '/w/a/maps/a.min.js.map', ['/w/a/b/x.js', '/w/a/b/c/d/y.js', '/z.js']),
     'rel': ('a.min.js', 'a.min.js.map', ['x.js', 'y.js', 'z.js']),
     'reldir': ('out/a.min.js', 'out/a.min.js.map', ['src/x.js', 'src/y.js', 'z.js']),
     'missing': (None, None, [None, None, None]),
@@ -355,7 +358,7 @@ def scenario(draw):
         'printer': draw(st.sampled_from(['pretty', 'min', 'obf'])),
         'map': draw(st.sampled_from(['none', 'separate', 'same', 'factory'])),
         'out_factory': draw(st.booleans()),
-        'names': draw(st.sampled_from(['abs', 'abs', 'rel', 'reldir', 'missing'])),
+        'names': draw(st.sampled_from(['abs', 'abs_siblings', 'abs_nested', 'rel', 'reldir', 'missing'])),
         'norm_mappings': draw(st.booleans()),
         'norm_paths': draw(st.booleans()),
         'url': draw(st.sampled_from(['default', 'default', 'explicit', 'none'])),
